@@ -188,7 +188,13 @@ func InstallPrograms(impl *Impl, log *HandlerLog, gate func(tag string)) {
 			<-ctx.Done()
 			return finish(ctx.Err())
 		}
-		return finish(errors.New("unknown program"))
+		// no program named (a stream the caller never opened as such): behave like an ordinary handler
+		// that consumes its input until it ends
+		for {
+			if _, err := recv(); err != nil {
+				return finish(errors.New("unknown program"))
+			}
+		}
 	})
 }
 
